@@ -42,6 +42,13 @@ PROBE_SRC = "def probe_fn():\n" + "".join("    probe(%d)\n" % i for i in range(1
 
 def generate(seed, tier):
     r = random.Random(seed)
+    if r.random() < 0.15:
+        # arm "swap": the step at the end of every update - the handler is handed the new list - against an application
+        # thread that is matching events at that very moment, 3-12 times in a row; whatever the matching thread keeps
+        # for itself while it works must not outlive the configuration it was taken from
+        cfgs = [sorted(r.sample(range(1, N_SVC + 1), r.randrange(0, 4))) for _ in range(r.randrange(3, 13))]
+        return {"arm": "swap", "cfgs": cfgs, "pause": r.choice((0.0, 0.0, 0.0001, 0.01)),
+                "knobs": common.race_knobs(r, stall_p=0.0, p_switch=r.choice((0.05, 0.15, 0.3)))}
     ops = []
     n = r.randrange(2, 11)
     cfg_i = 0
@@ -110,6 +117,11 @@ def generate(seed, tier):
 
 
 def shrink_candidates(s):
+    if s.get("arm") == "swap":
+        for cand in common.drop_one(s["cfgs"]):
+            if len(cand) >= 2:
+                yield dict(s, cfgs=cand)
+        return
     for cand in common.drop_one(s["ops"]):
         regs = [o["reg"] for o in cand if o["op"] == "register"]
         if all(o["reg"] in regs for o in cand if o["op"] == "unregister"):
@@ -127,7 +139,71 @@ def shrink_candidates(s):
         yield dict(s, svc_clock="steady")
 
 
+def _swap(s, ch):
+    viol = []
+    info = {"final": None}
+
+    def main(k):
+        p = hostgen.start_program("simprobe", prelude=False)
+        for ln in PROBE_SRC.strip("\n").split("\n"):
+            p.lines.append(ln)
+        p.finish()
+        w = world.World(k, cfg={"NO_TRACE": True}, python_plugin=False)
+        w.start()
+        handler = w.handler
+
+        def build(lines):
+            # fresh objects for every configuration, as a poll response gives
+            return [world.line_trigger("svc%d" % i, p.basename, 1 + i, {"fire_count": "-1", "fire_period": "0"}) for i in lines]
+        src = seams.SRC
+        tracer = linetrace.LineTracer(k, (os.path.join(src, "deep/processor/trigger_handler.py"),
+                                          os.path.join(src, "deep/api/tracepoint/trigger.py")))
+        tracer.install()
+        stop = {"v": False}
+
+        def bg_probe(i):
+            handler.trace_call(sys._getframe(1), "line", None)
+        gb = p.load({"probe": bg_probe})
+
+        def prober():
+            while not stop["v"]:
+                gb["probe_fn"]()
+                k.yield_point("prober")
+        t = shims.SimThread(target=prober, name="prober")
+        t.start()
+        for lines in s["cfgs"]:
+            handler.new_config(build(lines))
+            k.fault("configuration_swapped_under_a_matching_thread")
+            if s["pause"]:
+                k.sleep(s["pause"])
+            else:
+                k.yield_point("swapper")
+        stop["v"] = True
+        t.join()
+        tracer.uninstall()
+        n0 = len(w.pushed)
+
+        def probe(i):
+            handler.trace_call(sys._getframe(1), "line", None)
+        g = p.load({"probe": probe})
+        g["probe_fn"]()
+        active = sorted({es.tracepoint.id for (_, _, es) in w.pushed[n0:]})
+        expected = ["svc%d" % i for i in s["cfgs"][-1]]
+        info["final"] = (active, expected)
+        if active != expected:
+            viol.append(V("not-converged:stale-older-configuration", "arm swap: the handler was given %s one after the "
+                          "other while an application thread was matching events; at rest it acts on %s, the last list is %s" % (
+                              s["cfgs"], active, expected)))
+        w.deep.shutdown()
+        w.close()
+
+    k = common.run_in_kernel(ch, s["knobs"], main)
+    return common.result(k, viol, key=repr(("swap", s["cfgs"], k.order_sig.hexdigest()[:8])))
+
+
 def execute(s, ch):
+    if s.get("arm") == "swap":
+        return _swap(s, ch)
     viol = []
     info = {"updates": 0, "regs": 0, "final": None}
 
